@@ -12,7 +12,7 @@
    `op_ok o` is the caller's side of the C++ contract: an array passed with a length really holds the
    bytes the call reads (min(length,512), resp. min(length,512-offset)). *)
 From OlaBase Require Import Bytes.
-From C02 Require Import Gen Model Spec Lemmas Inv Proofs.
+From C02 Require Import Gen Model Spec Lemmas Text Inv Proofs.
 Local Open Scope N_scope.
 
 (* the regenerated constants are the property's numbers *)
@@ -113,6 +113,89 @@ Theorem c02_self_set_refuted :
 Proof. exact self_set_refuted_full. Qed.
 Print Assumptions c02_self_set_refuted.
 
+(* ======== extension round ========
+   The model now also contains DmxBuffer(const std::string&) (ONewStr), operator!= (QNe), SetFromString on
+   ARBITRARY text (OSetFromString text: StringSplit at ',' + atoi per item + store as a byte, with glibc's
+   white-space / sign / stop-character / LONG_MIN..LONG_MAX saturation behaviour) and pointer arguments
+   that point into another buffer's storage (OSetRaw: a.Set(b.GetRaw()+k, n); OSetRangeRaw:
+   a.SetRange(off, b.GetRaw()+k, n); a <> b and k+n <= b.Size() are the caller's contract and are
+   checked like the lifetime preconditions).  c02_inv, c02_refines, c02_refines_run, c02_independent,
+   c02_memsafe, c02_bounds, c02_fail_pure above quantify over these as well. *)
+
+(* Histories with their return values: every operation of every history returns exactly what the value
+   model returns (true / false / void / skipped), and the final states correspond. *)
+Theorem c02_refines_trace : forall fresh slots ops,
+  Forall op_ok ops ->
+  exists s, ctrace fresh (init_st slots) ops = Ok (s, atrace (repeat None slots) ops) /\
+            inv s /\ abs s = arun (repeat None slots) ops.
+Proof. exact trace_full. Qed.
+Print Assumptions c02_refines_trace.
+
+(* The contents of freshly allocated (uninitialised) memory never show: two runs of the same history
+   over different memory contents return the same values and answer every read identically. *)
+Theorem c02_uninit_invisible : forall fresh1 fresh2 slots ops q,
+  Forall op_ok ops ->
+  exists s1 s2 rets a,
+    ctrace fresh1 (init_st slots) ops = Ok (s1, rets) /\ ctrace fresh2 (init_st slots) ops = Ok (s2, rets) /\
+    cquery s1 q = Ok a /\ cquery s2 q = Ok a.
+Proof. exact uninit_invisible_full. Qed.
+Print Assumptions c02_uninit_invisible.
+
+(* Every slot ever readable is a byte, provided callers pass bytes (uint8_t arrays, std::string
+   characters, uint8_t values): an invariant of reachable states, proved from the initial state. *)
+Theorem c02_slots_are_bytes : forall fresh slots ops i,
+  Forall op_ok ops -> Forall op_bytes ops ->
+  exists s, crun fresh (init_st slots) ops = Ok s /\
+    (is_live s i = true -> exists l, cquery s (QGetStr i) = Ok (ABytes l) /\ bytes_ok l = true).
+Proof. exact slots_are_bytes_full. Qed.
+Print Assumptions c02_slots_are_bytes.
+
+(* Text conversion round trip, after every history: feeding ToString() of any live buffer j to
+   SetFromString of any live buffer i (i = j included, shared or not) succeeds and makes i hold
+   exactly j's slots; j's own slots are what they were. *)
+Theorem c02_text_roundtrip : forall fresh slots ops i j,
+  Forall op_ok ops -> Forall op_bytes ops ->
+  exists s, crun fresh (init_st slots) ops = Ok s /\
+    (is_live s i = true -> is_live s j = true ->
+     exists text s', cquery s (QToString j) = Ok (ABytes text) /\
+       cstep fresh s (OSetFromString i text) = Ok (s', RBool true) /\
+       aget (abs s') i = Some (contents (aget (abs s) j)) /\
+       forall k, cquery s' (QGetStr i) = Ok (ABytes k) -> cquery s (QGetStr j) = Ok (ABytes k)).
+Proof. exact text_roundtrip_full. Qed.
+Print Assumptions c02_text_roundtrip.
+
+(* SetFromString on text in the documented format ("0,1,2", ",,,,,255,255,128", "1,2,"): items are
+   separated by commas, an item is a value 0..255 in decimal or empty (a dropped zero); the buffer then
+   holds one slot per item with that value (0 for a dropped one), at most the first 512. *)
+Theorem c02_text_documented : forall fresh s i items,
+  inv s -> is_live s i = true ->
+  forallb item_ok items = true -> join_items (map item_text items) <> [] ->
+  exists s', cstep fresh s (OSetFromString i (join_items (map item_text items))) = Ok (s', RBool true) /\
+             inv s' /\ aget (abs s') i = Some (take 512 (map item_val items)).
+Proof. exact sfs_documented_step. Qed.
+Print Assumptions c02_text_documented.
+
+(* No leak, constructively: after ANY history, running the destructor of every slot leaves no live
+   object and no live heap block. *)
+Theorem c02_destroy_all : forall fresh slots ops,
+  Forall op_ok ops ->
+  exists s, crun fresh (init_st slots) (ops ++ destroy_all slots) = Ok s /\
+            (forall i, is_live s i = false) /\ (forall id, hget (heap s) id = None).
+Proof. exact destroy_all_full. Qed.
+Print Assumptions c02_destroy_all.
+
+(* The plugins' idiom a.SetRange(0, b.GetRaw(), b.Size()) (a pointer INTO b's block) from any aliasing
+   state, a and b possibly sharing that very block: a (initialised, not longer than b) becomes a copy
+   of b and b keeps its value.  (The general effect of raw-pointer arguments is part of c02_refines.) *)
+Theorem c02_raw_pointer_copy : forall fresh s i j l c,
+  inv s -> i <> j ->
+  is_live s i = true -> is_live s j = true -> aget (abs s) j = Some l -> aget (abs s) i = Some c ->
+  len c <= len l ->
+  exists s', cstep fresh s (OSetRangeRaw i 0 j 0 (len l)) = Ok (s', RBool true) /\ inv s' /\
+             aget (abs s') i = Some l /\ aget (abs s') j = Some l.
+Proof. exact raw_copy_step. Qed.
+Print Assumptions c02_raw_pointer_copy.
+
 (* ---- the hypotheses are satisfiable, the model computes *)
 Example c02_ex_inv : inv (init_st 4).
 Proof. exact (inv_init 4). Qed.
@@ -133,3 +216,27 @@ Example c02_ex_run :
         ODestroy 1; OSetBuf 0 0; OSetRange 0 3 (XExt [7; 8]) 2] = Ok s /\
      abs s = [Some (Some [1; 9; 3; 7; 8]); None] /\ live_blocks s = 1%nat).
 Proof. split; [reflexivity|]. eexists. split; [vm_compute; reflexivity|]. split; vm_compute; reflexivity. Qed.
+
+(* the header's own example ",,,,,255,255,128", DmxBufferTest's " 266 ,,,10  ", an out-of-range item
+   (finding C20-dmx-atoi-truncation: 300 is stored as 44), a sign and a stop character, as the model
+   computes them *)
+Example c02_ex_text :
+  join_items (map item_text [None; None; None; None; None; Some 255; Some 255; Some 128])
+    = [44; 44; 44; 44; 44; 50; 53; 53; 44; 50; 53; 53; 44; 49; 50; 56] /\
+  sfs_values [44; 44; 44; 44; 44; 50; 53; 53; 44; 50; 53; 53; 44; 49; 50; 56] = [0; 0; 0; 0; 0; 255; 255; 128] /\
+  sfs_values [32; 50; 54; 54; 32; 44; 44; 44; 49; 48; 32; 32] = [10; 0; 0; 10] /\
+  sfs_values [51; 48; 48; 44; 45; 49; 44; 49; 120] = [44; 255; 1].
+Proof. repeat split; vm_compute; reflexivity. Qed.
+
+Example c02_ex_ops_bytes :
+  Forall op_bytes [ONewStr 0 [1; 2; 255]; OCopyNew 1 0; OSetChannel 1 1 9; OSetFromString 0 [49; 44; 50]].
+Proof. repeat constructor; cbn; lia. Qed.
+
+(* a shared pair, the raw-pointer copy between them, and the destructors: a concrete non-trivial state
+   meeting the hypotheses of c02_raw_pointer_copy / c02_destroy_all *)
+Example c02_ex_raw :
+  exists s, crun [] (init_st 3)
+       [ONewStr 0 [1; 2; 3]; OCopyNew 1 0; OSetChannel 1 3 9; OCopyNew 2 1; OSetRangeRaw 0 0 2 0 4] = Ok s /\
+     abs s = [Some (Some [1; 2; 3; 9]); Some (Some [1; 2; 3; 9]); Some (Some [1; 2; 3; 9])] /\
+     live_blocks s = 2%nat.
+Proof. eexists. split; [vm_compute; reflexivity|]. split; vm_compute; reflexivity. Qed.
